@@ -43,7 +43,7 @@ def run(chk):
     rnd = random.Random(chk.seed)
     # component level: the driver reports HUNG (no Finished within 5 s of scaled timeouts) which no action explains
     behs = chk.tlc_simulate("Forwarder", "Forwarder_sim.cfg", 500 if thorough else 60, 150, chk.seed)
-    fs = [F.script_from_behaviour(b, "sim%d" % i, rnd) for i, b in enumerate(behs)] + [F.random_script("rnd%d" % i, rnd) for i in range(500 if thorough else 40)]
+    fs = [F.script_from_behaviour(b, "sim%d" % i, rnd) for i, b in enumerate(behs)] + [F.random_script("rnd%d" % i, rnd) for i in range(500 if thorough else 40)] + [dict(s, id=s["id"] + "-%d" % rep) for rep in range(3) for s in F.recovery_stories()]
     n1, e1, rej1, kinds, stop_ms, st1 = F.run_scripts(chk, fs, 2, "c18")
     c02.handle_rejections(chk, rej1, 2, False, cov)
     hs = [H.random_script("B-rnd%d" % i, rnd, "B") for i in range(400 if thorough else 40)]
